@@ -37,6 +37,10 @@ def literals(pkg_dir: str | None = None) -> tuple[set, set]:
             if isinstance(node, ast.Expr) and isinstance(node.value, ast.Constant) and isinstance(node.value.value, str):
                 doc.add(id(node.value))      # a bare string statement is a comment
         for node in ast.walk(tree):
+            if isinstance(node, ast.BinOp):
+                v = _fold(node)          # 64 * 1024, 1 << 16, 2 ** 20 - 1: the value the code uses is the folded one
+                if isinstance(v, int) and not isinstance(v, bool) and abs(v) < 1 << 64:
+                    ints.add(v)
             if isinstance(node, ast.Constant) and id(node) not in doc:
                 v = node.value
                 if isinstance(v, str):
@@ -46,6 +50,35 @@ def literals(pkg_dir: str | None = None) -> tuple[set, set]:
                 elif isinstance(v, int) and not isinstance(v, bool):
                     ints.add(v)
     return strs, ints
+
+
+def _fold(node):
+    """value of an arithmetic expression over integer literals, or None"""
+    if isinstance(node, ast.Constant) and isinstance(node.value, int) and not isinstance(node.value, bool):
+        return node.value
+    if isinstance(node, ast.UnaryOp) and isinstance(node.op, ast.USub):
+        v = _fold(node.operand)
+        return None if v is None else -v
+    if isinstance(node, ast.BinOp):
+        a, b = _fold(node.left), _fold(node.right)
+        if a is None or b is None:
+            return None
+        try:
+            if isinstance(node.op, ast.Mult):
+                return a * b
+            if isinstance(node.op, ast.Add):
+                return a + b
+            if isinstance(node.op, ast.Sub):
+                return a - b
+            if isinstance(node.op, ast.LShift) and 0 <= b < 64:
+                return a << b
+            if isinstance(node.op, ast.Pow) and 0 <= b < 64 and abs(a) <= 1 << 16:
+                return a ** b
+            if isinstance(node.op, ast.FloorDiv) and b:
+                return a // b
+        except Exception:
+            return None
+    return None
 
 
 _cache = None
